@@ -34,6 +34,10 @@ func (core *JApiCore) compileCore() *jerr.JApiError {
 		return je
 	}
 
+	if je := core.checkUserTypeNames(); je != nil {
+		return je
+	}
+
 	return core.collectPaths(core.directivesWithPastes)
 }
 
@@ -71,6 +75,18 @@ func (core *JApiCore) findPaste(macroName string, d *directive.Directive, visite
 			if je := core.findPaste(macroName, c, visited); je != nil {
 				return je
 			}
+		}
+	}
+	return nil
+}
+
+// checkUserTypeNames reports a TYPE directive without a name at that directive
+// (otherwise the unnamed type is handed to every other schema, and the schema
+// library's complaint is attributed to an innocent directive).
+func (core *JApiCore) checkUserTypeNames() *jerr.JApiError {
+	for _, d := range core.directivesWithPastes {
+		if d.Type() == directive.Type && d.NamedParameter("Name") == "" {
+			return d.KeywordError(fmt.Sprintf("%s (%s)", jerr.RequiredParameterNotSpecified, "Name"))
 		}
 	}
 	return nil
